@@ -48,6 +48,21 @@ CHECKS = {
    text="Every statement structure over two names up to the statement budget (lets with id / ignore / pair patterns, nested blocks, let-with-block, match arms with binders, calls of functions whose parameters permute or shadow the names; nesting 3) and every ordered pair of pattern lets (all patterns up to three leaves) in eight structural contexts is elaborated with an environment stack; after every statement the program asserts the constant each visible name holds, and a twin program referencing a name that is not in scope must be rejected.",
    note="The elaborator's environment stack is cross-checked against the generic R2 evaluator on every program. All variables are u8.",
    ref="§6-C10"),
+ "C12": dict(
+   technique="bounded-exhaustive enumeration of (template, argument map, argument values) on the real instantiate path, against R1's parameter set and a literal-substitution equivalence oracle",
+   text="Every template of the stated family (0..4 param:: occurrences over a 15-type pool, in main / called / uncalled functions, same name twice) x every argument map (exact, extra name, each name missing, each name replaced by a same-layout value of another type, each name replaced by another layout) x argument values: parameters() must equal the occurrence set computed by R1, instantiate must fail exactly for the inconsistent maps, and the instantiated program must equal (CMR) or behave like the program with each argument written literally, and must succeed exactly when every witness equals the supplied argument.",
+   note="Literal substitution and the value writer are harness-side; equivalence is CMR equality with a behavioural fallback.",
+   ref="§6-C12"),
+ "C13": dict(
+   technique="exhaustive enumeration of all jets and of complete boundary products of operands on the real compiler + Bit Machine, compared with closed-form jet model R5",
+   text="All 471 Elements jets: a one-call program with the documented signature must compile (the two reserved jets must be rejected) and every call near miss (argument dropped / added, differently-typed neighbours swapped, result type changed) must be rejected; for the 304 jets with a closed form, the result for every operand tuple of the complete product of boundary alphabets (thorough: all 2^16 pairs for 8-bit binary jets) is pinned through an EXPECT witness and compared with R5.",
+   note="Operand grouping is a frozen snapshot of the pinned table (data/jet_sigs.txt), not an independent oracle; operand order, result shape and values are independent. The C jets are trusted.",
+   ref="§6-C13"),
+ "C14": dict(
+   technique="bounded-exhaustive enumeration of call-site programs x layouts and of the term family x witnesses with both debug flags, intrinsic + R2 oracle",
+   text="Every tracked call kind (and nested / textually identical combinations, pairs of kinds) in every placement (main, function called 0/1/2 times, nested functions, fold body, for_while body) in every layout (single line, token per line LF/CRLF, tabs, block and non-ASCII line comments, render options): every AssertL marker of the debug build must resolve to the kind and (whitespace-insensitive) text of a reachable call site, distinct markers = reachable call sites, the plain build has none, dbg! values reconstruct to R2's value, and the debug build gives the same verdict as the plain build on every witness - also over the whole depth-1 term family.",
+   note="Call-site byte ranges come from the harness renderer. Reachability = main plus transitively called functions.",
+   ref="§6-C14"),
 }
 
 NOT_BUILT_REASON = "check not built yet in this round (planned as bounded-exhaustive exploration, DESIGN.md §6); not claimed until it runs"
